@@ -22,4 +22,50 @@ pub assume_specification<T: core::marker::Destruct, E: core::marker::Destruct>[ 
 // ---- TRUSTED: i64::checked_neg (std: None exactly for i64::MIN)
 pub assume_specification[ i64::checked_neg ](x: i64) -> (r: Option<i64>)
     ensures x == i64::MIN ==> r is None, x != i64::MIN ==> r == Some((-x) as i64);
+// ---- TRUSTED: Vec::dedup removes CONSECUTIVE repeated elements (std), for element types whose `==` is structural
+pub open spec fn spec_dedup<T>(s: Seq<T>) -> Seq<T>
+    decreases s.len()
+{
+    if s.len() <= 1 { s } else if s[s.len() - 1] == s[s.len() - 2] { spec_dedup(s.drop_last()) } else { spec_dedup(s.drop_last()).push(s[s.len() - 1]) }
+}
+pub assume_specification<T: PartialEq, A: std::alloc::Allocator>[ Vec::<T, A>::dedup ](v: &mut Vec<T, A>)
+    ensures final(v)@ == spec_dedup(old(v)@);
+// ---- TRUSTED: integer methods of std that vstd does not specify (each: the documented std behaviour)
+pub assume_specification[ i64::abs ](x: i64) -> (r: i64)
+    requires x != i64::MIN,
+    ensures r == (if x < 0 { -x } else { x as int });
+pub assume_specification[ i64::saturating_add ](x: i64, y: i64) -> (r: i64)
+    ensures r == (if x + y > i64::MAX { i64::MAX as int } else if x + y < i64::MIN { i64::MIN as int } else { x + y });
+pub assume_specification[ i64::wrapping_neg ](x: i64) -> (r: i64)
+    ensures r == (if x == i64::MIN { i64::MIN as int } else { -x });
+pub assume_specification[ isize::checked_neg ](x: isize) -> (r: Option<isize>)
+    ensures x == isize::MIN ==> r is None, x != isize::MIN ==> r == Some((-x) as isize);
+pub assume_specification[ isize::saturating_sub ](x: isize, y: isize) -> (r: isize)
+    ensures r == (if x - y > isize::MAX { isize::MAX as int } else if x - y < isize::MIN { isize::MIN as int } else { x - y });
+pub assume_specification[ isize::unsigned_abs ](x: isize) -> (r: usize)
+    ensures r == (if x < 0 { -x } else { x as int });
+pub assume_specification[ isize::rem_euclid ](x: isize, y: isize) -> (r: isize)
+    requires y != 0, !(x == isize::MIN && y == -1),
+    ensures 0 <= r < (if y < 0 { -y } else { y as int }), (x - r) % (y as int) == 0;
+pub assume_specification[ usize::abs_diff ](x: usize, y: usize) -> (r: usize)
+    ensures r == (if x >= y { x - y } else { y - x });
+// ---- TRUSTED: VecDeque ends and O(1) removal (std: swap_remove_back moves the LAST element into the vacated slot)
+pub assume_specification<T, A: std::alloc::Allocator>[ std::collections::VecDeque::<T, A>::front ](q: &std::collections::VecDeque<T, A>) -> (r: Option<&T>)
+    ensures q@.len() == 0 ==> r is None, q@.len() > 0 ==> r == Some(&q@[0]);
+pub assume_specification<T, A: std::alloc::Allocator>[ std::collections::VecDeque::<T, A>::back ](q: &std::collections::VecDeque<T, A>) -> (r: Option<&T>)
+    ensures q@.len() == 0 ==> r is None, q@.len() > 0 ==> r == Some(&q@[q@.len() - 1]);
+pub assume_specification<T, A: std::alloc::Allocator>[ std::collections::VecDeque::<T, A>::swap_remove_back ](q: &mut std::collections::VecDeque<T, A>, index: usize) -> (r: Option<T>)
+    ensures
+        index >= old(q)@.len() ==> r is None && final(q)@ == old(q)@,
+        index < old(q)@.len() ==> r == Some(old(q)@[index as int])
+            && final(q)@ == (if index == old(q)@.len() - 1 { old(q)@.drop_last() } else { old(q)@.drop_last().update(index as int, old(q)@[old(q)@.len() - 1]) });
+// ---- TRUSTED: slice membership for element types whose `==` is structural
+pub assume_specification<T: PartialEq>[ <[T]>::contains ](s: &[T], x: &T) -> (r: bool)
+    ensures r == s@.contains(*x);
+// ---- TRUSTED: Option::as_deref borrows the payload through Deref (std); for Vec<u8> the target slice has the same bytes
+pub uninterp spec fn deref_spec<T: core::ops::Deref>(t: &T) -> &T::Target;
+pub assume_specification<T: core::ops::Deref>[ Option::<T>::as_deref ](o: &Option<T>) -> (r: Option<&T::Target>)
+    ensures r == (match o { Some(v) => Some(deref_spec(v)), None => None });
+pub broadcast axiom fn axiom_deref_vec_u8(v: &Vec<u8>)
+    ensures #[trigger] deref_spec::<Vec<u8>>(v)@ == v@;
 }
